@@ -66,9 +66,10 @@ def shape_bus_map(identifier, mask, writeable, with_mirror, editable=True):
         lo2, hi2 = B.int("lo2"), B.int("hi2")
         m = B.inst("a816.cpu.mapping.Mapping", bank_range=(B.int("lo1"), B.int("hi1")), mirror=None, address_range=S_addr_range(B), mask=0x8000, writable=False)
         m2 = B.inst("a816.cpu.mapping.Mapping", bank_range=(lo2, hi2), mirror=None, address_range=S_addr_range(B), mask=0x10000, writable=True)
-        lookup = B.symmap("lookup", {1: "A", 2: "A_mirror", 3: "B"})
+        # existing entries: A (with its mirror), B, and A2 -- an identifier that merely STARTS like A (identifiers are numbers in sources: 1 and 12)
+        lookup = B.symmap("lookup", {1: "A", 2: "A_mirror", 3: "B", 4: "A2"})
         bus = B.inst("a816.cpu.mapping.Bus", name=None, lookup=lookup, inverse_lookup=B.dict({}),
-                     mappings=B.dict({"A": m, "A_mirror": m, "B": m2}), editable=editable, internal_id=0)
+                     mappings=B.dict({"A": m, "A_mirror": m, "B": m2, "A2": m2}), editable=editable, internal_id=0)
         return {"bus": bus, "identifier": identifier, "bank_range": (B.int("lo"), B.int("hi")), "mask": mask, "writeable": writeable,
                 "mirror": (B.int("mlo"), B.int("mhi")) if with_mirror else None, "b": B.int("b")}
     return shape
@@ -158,6 +159,11 @@ def address_contract_cases(E):
         for wr in (False, True):
             lab = f"window={mask:#x},{'RAM' if wr else 'ROM'}"
             cs.append(Case(H + "physical_address_contract", lab, shape_mapping(mask, wr), target=["a816.cpu.mapping.Mapping.physical_address"]))
+        for wr in (0, 1, False, True):
+            # a `.map` directive hands over the NUMBER it parsed (`writable=1` / `writable=0`), the built-in buses pass booleans: through the constructor
+            cs.append(Case(H + "mapping_from_directive_contract", f"window={mask:#x}, writable given as {wr!r}",
+                           lambda B, mask=mask, wr=wr: {"lo": B.int("lo"), "hi": B.int("hi"), "mask": mask, "writable": wr, "value": B.int("value")},
+                           target=["a816.cpu.mapping.Mapping.__init__", "a816.cpu.mapping.Mapping.physical_address"]))
         lab = f"window={mask:#x},ROM"
         cs.append(Case(H + "logical_address_contract", lab, shape_mapping(mask, False), target=["a816.cpu.mapping.Mapping.logical_address"]))
         for mask2, wr2 in ((0x8000, False), (0x10000, True)):
